@@ -31,6 +31,9 @@ type ApprovalCfg struct {
 	// split timer: the timer callback is parked again where it draws the counter of its error result, the next step of
 	// the schedule runs inside that window, then the callback finishes (it decided when it ran first: same outcome)
 	SplitTimer int `json:"splittimer"` // number of schedule steps that run inside the window (0 = no split)
+	// split verdict: a deciding verdict is parked once more after it stopped the timer (it holds the decision lock there)
+	// while the next steps of the schedule run
+	SplitVerdict int `json:"splitverdict"`
 }
 type PStep struct {
 	K string `json:"k"`
@@ -38,22 +41,23 @@ type PStep struct {
 	C int    `json:"c"`
 }
 type ApprovalLine struct {
-	Verdict    map[string][]string `json:"verdict"`
-	Expires    map[string]bool     `json:"expires"`
-	Sched      []string            `json:"sched"`
-	PSched     []PStep             `json:"psched"`
-	Unsafe     bool                `json:"unsafe"`
-	Realised   bool                `json:"realised"`
-	Blocked    int                 `json:"blocked"`
-	Outcomes   map[string][]string `json:"outcomes"`
-	Presented  map[string][]int    `json:"presented"`
-	Values     map[string]int      `json:"values"`
-	Data       int                 `json:"data"`
-	Panic      string              `json:"panic"`
-	AfterDisc  int                 `json:"afterdisc"` // datagrams written to the connection after it was removed
-	Disconnect int                 `json:"disconnect"`
-	SplitTimer int                 `json:"splittimer"`
-	Late       map[string]bool     `json:"late"`
+	Verdict      map[string][]string `json:"verdict"`
+	Expires      map[string]bool     `json:"expires"`
+	Sched        []string            `json:"sched"`
+	PSched       []PStep             `json:"psched"`
+	Unsafe       bool                `json:"unsafe"`
+	Realised     bool                `json:"realised"`
+	Blocked      int                 `json:"blocked"`
+	Outcomes     map[string][]string `json:"outcomes"`
+	Presented    map[string][]int    `json:"presented"`
+	Values       map[string]int      `json:"values"`
+	Data         int                 `json:"data"`
+	Panic        string              `json:"panic"`
+	AfterDisc    int                 `json:"afterdisc"` // datagrams written to the connection after it was removed
+	Disconnect   int                 `json:"disconnect"`
+	SplitVerdict int                 `json:"splitverdict"`
+	SplitTimer   int                 `json:"splittimer"`
+	Late         map[string]bool     `json:"late"`
 }
 
 func parseStep(name string) PStep {
@@ -95,11 +99,9 @@ func approvalReplay(args []string) {
 }
 
 func runApproval(topo *Topo, c ApprovalCfg) ApprovalLine {
-	line := ApprovalLine{Verdict: c.Verdict, Expires: c.Expires, Sched: c.Sched, Unsafe: c.Unsafe, Blocked: -1, Realised: true, Disconnect: c.Disconnect, SplitTimer: c.SplitTimer, Late: c.Late,
+	line := ApprovalLine{Verdict: c.Verdict, Expires: c.Expires, Sched: c.Sched, Unsafe: c.Unsafe, Blocked: -1, Realised: true, Disconnect: c.Disconnect, SplitTimer: c.SplitTimer, SplitVerdict: c.SplitVerdict, Late: c.Late,
 		Outcomes: map[string][]string{}, Presented: map[string][]int{}, Values: map[string]int{}}
-	for _, n := range c.Sched {
-		line.PSched = append(line.PSched, parseStep(n))
-	}
+	line.PSched = []PStep{} // the steps in the order in which they really ran (a held or blocked verdict ends later than scheduled)
 	s := NewSystem(topo)
 	defer s.Close()
 	p := s.peers["p1"]
@@ -194,7 +196,11 @@ func runApproval(topo *Topo, c ApprovalCfg) ApprovalLine {
 			if v == "silent" {
 				continue
 			}
-			sched.Add(fmt.Sprintf("v:%s:%d", w, cb), []string{"ApproveOrDenyWrite.afterLookup"}, func() {
+			vgates := []string{"ApproveOrDenyWrite.afterLookup"}
+			if c.SplitVerdict > 0 {
+				vgates = append(vgates, "ApproveOrDenyWrite.afterStop")
+			}
+			sched.Add(fmt.Sprintf("v:%s:%d", w, cb), vgates, func() {
 				mu.Lock()
 				msg := msgs[ctrOf[w]]
 				mu.Unlock()
@@ -212,6 +218,16 @@ func runApproval(topo *Topo, c ApprovalCfg) ApprovalLine {
 	disconnected := false
 	var midTimer *sproc // a timer callback parked inside its send
 	midLeft := 0
+	heldV, heldLeft := "", 0 // a verdict parked behind its timer stop
+	releaseHeld := func(cur string) {
+		if heldV != "" && heldV != cur {
+			if heldLeft--; heldLeft <= 0 {
+				sched.Step(heldV)
+				line.PSched = append(line.PSched, parseStep(heldV))
+				heldV = ""
+			}
+		}
+	}
 	finishTimer := func() {
 		if midTimer == nil {
 			return
@@ -242,9 +258,14 @@ func runApproval(topo *Topo, c ApprovalCfg) ApprovalLine {
 			finishTimer()
 			before := runtime.NumGoroutine()
 			sp := sched.procs[name]
+			if sp != nil && sp.parked != "" {
+				line.PSched = append(line.PSched, parseStep(name))
+			}
 			if sp == nil || sp.parked == "" {
-				line.Realised, line.Blocked = false, i
-				break
+				if line.Realised {
+					line.Realised, line.Blocked = false, i
+				}
+				continue
 			}
 			sp.parked = ""
 			sp.gate <- struct{}{}
@@ -261,6 +282,7 @@ func runApproval(topo *Topo, c ApprovalCfg) ApprovalLine {
 				}
 				if sp.parked != "" {
 					midTimer, midLeft = sp, c.SplitTimer
+					releaseHeld(name)
 					continue
 				}
 			}
@@ -269,16 +291,42 @@ func runApproval(topo *Topo, c ApprovalCfg) ApprovalLine {
 			for runtime.NumGoroutine() >= before && time.Now().Before(deadline) {
 				time.Sleep(100 * time.Microsecond)
 			}
+			releaseHeld(name)
 			continue
 		}
-		_, ok := sched.Step(name)
+		line.PSched = append(line.PSched, parseStep(name))
+		at, ok := sched.Step(name)
 		if midLeft--; midLeft <= 0 {
 			finishTimer()
 		}
-		if !ok {
-			line.Realised, line.Blocked = false, i
-			break
+		// a verdict parked behind its timer stop is finished after the window, or at once if another one is held already
+		releaseHeld(name)
+		if ok && at == "ApproveOrDenyWrite.afterStop" {
+			if heldV == "" {
+				heldV, heldLeft = name, c.SplitVerdict
+			} else {
+				_, ok = sched.Step(name)
+			}
 		}
+		if !ok {
+			// blocked on a lock held by a parked process (the code is more atomic than the split model): the schedule is
+			// not realised as given; the step completes when the holder goes on, the remaining steps are still delivered
+			if line.Realised {
+				line.Realised, line.Blocked = false, i
+			}
+			if heldV != "" && heldV != name {
+				sched.Step(heldV)
+				line.PSched = append(line.PSched, parseStep(heldV))
+				heldV = ""
+			}
+			finishTimer()
+			sched.Step(name)
+			line.PSched = append(line.PSched, parseStep(name))
+		}
+	}
+	if heldV != "" {
+		sched.Step(heldV)
+		line.PSched = append(line.PSched, parseStep(heldV))
 	}
 	finishTimer()
 	if c.Disconnect >= len(c.Sched) {
